@@ -663,12 +663,12 @@ pub fn run(args: &Args, report: &mut Report) {
         }
         return;
     }
-    let n = report.size(4000, 200_000);
-    let n_order = report.size(400, 20_000);
-    let n_exact = report.size(800, 40_000);
-    let n_vol = report.size(600, 30_000);
+    let n = report.size(16_000, 400_000);
+    let n_order = report.size(1600, 40_000);
+    let n_exact = report.size(3200, 80_000);
+    let n_vol = report.size(2400, 60_000);
     let seed = args.seed ^ 0xC02;
-    let n_adapted = report.size(180, 6000);
+    let n_adapted = report.size(720, 12_000);
     crate::report::par_run(report, n_adapted, |i, rep| adapted_case(rep, seed, i));
     crate::report::par_run(report, n + n_order + n_exact + n_vol, |i, rep| {
         if i < n {
